@@ -75,3 +75,24 @@ V('C02', 'c02v-inline-generation', [(CI, "        generation = len(self.db[obj_i
 V('C02', 'c02v-keyword-args', [(CI, "wl.ResolvedObject(self, time, parent, obj_id, generation, type_name)", "wl.ResolvedObject(self, time, parent, obj_id=obj_id, generation=generation, type_name=type_name)")])
 V('C02', 'c02v-rename-local', [(CI, "            last_obj = self.db[obj_id][-1]\n            if last_obj.alive:", "            prev = self.db[obj_id][-1]\n            last_obj = prev\n            if prev.alive:")])
 V('C02', 'c02v-setdefault-free-early-return', [(ARG, "            if not self.obj.resolved():\n                if self.is_new:", "            if self.obj.resolved():\n                return\n            if True:\n                if self.is_new:")])
+
+# ---- C03 -----------------------------------------------------------------------------------------
+M('C03', 'c03-no-display-guard', [(MSG, "if self.obj == conn.wl_display() and self.name == 'delete_id' and len(self.args) > 0:", "if self.name == 'delete_id' and len(self.args) > 0:")], 'C03.2')
+M('C03', 'c03-resurrect', [(OBJ, "    def lifespan(self)", "    def revive(self) -> None:\n        self.alive = True\n\n    def lifespan(self)")], 'C03.1')
+M('C03', 'c03-lifespan-swapped', [(OBJ, "return self.destroy_time - self.create_time", "return self.create_time - self.destroy_time")], 'C03.6')
+M('C03', 'c03-destroy-any-reuse', [(CI, "                elif last_obj.owned_by_server():", "                elif last_obj.owned_by_server() or type_name == last_obj.type:")], 'C03.2')
+M('C03', 'c03-no-implicit-destroy', [(CI, "                    last_obj.destroy(time)\n", "                    pass\n")], 'C03')
+M('C03', 'c03-server-range-gt', [(OBJ, "return self.id >= 0xff000000", "return self.id > 0xff000000")], 'C03.5')
+M('C03', 'c03-server-range-wrong', [(OBJ, "return self.id >= 0xff000000", "return self.id >= 0xfe000000")], 'C03.5')
+M('C03', 'c03-annotate-first-gen', [(MSG, "            self.destroyed_obj.destroy(self.timestamp)", "            conn.retrieve_object(first_arg.value, 0, None).destroy(self.timestamp)")], 'C03')
+M('C03', 'c03-destroy-time-zero', [(MSG, "self.destroyed_obj.destroy(self.timestamp)", "self.destroyed_obj.destroy(0.0)")], 'C03.2')
+M('C03', 'c03-annotation-always', [(MSG, "        destroyed = ''\n        if self.destroyed_obj:", "        destroyed = ''\n        if self.destroyed_obj or self.name == 'delete_id':")], 'C03.3')
+M('C03', 'c03-destroy-keeps-alive-sometimes', [(OBJ, "        self.destroy_time = time\n        self.alive = False", "        self.destroy_time = time\n        if self.create_time is not None:\n            self.alive = False")], 'C03.1')
+M('C03', 'c03-create-time-now', [(CI, "obj = wl.ResolvedObject(self, time, parent, obj_id, generation, type_name)", "obj = wl.ResolvedObject(self, self.open_time, parent, obj_id, generation, type_name)")], 'C03.6')
+M('C03', 'c03-destroy-second-arg', [(MSG, "            first_arg = self.args[0]\n", "            first_arg = self.args[-1]\n")], 'C03.2')
+M('C03', 'c03-destroyed-set-elsewhere', [(ARG, "                self.obj = self.obj.resolve(conn)\n", "                self.obj = self.obj.resolve(conn)\n                if not self.obj.alive:\n                    message.destroyed_obj = self.obj\n")], 'C03.3')
+V('C03', 'c03v-flip-compare', [(OBJ, "return self.id >= 0xff000000", "return 0xff000000 <= self.id")])
+V('C03', 'c03v-gt-minus-one', [(OBJ, "return self.id >= 0xff000000", "return self.id > 0xfeffffff")])
+V('C03', 'c03v-nested-if', [(MSG, "if self.obj == conn.wl_display() and self.name == 'delete_id' and len(self.args) > 0:\n            first_arg = self.args[0]\n            assert isinstance(first_arg, Arg.Int)\n            self.destroyed_obj = conn.retrieve_object(first_arg.value, -1, None)\n            self.destroyed_obj.destroy(self.timestamp)",
+   "if self.name == 'delete_id' and self.obj == conn.wl_display():\n            if len(self.args) > 0:\n                first_arg = self.args[0]\n                assert isinstance(first_arg, Arg.Int)\n                self.destroyed_obj = conn.retrieve_object(first_arg.value, -1, None)\n                self.destroyed_obj.destroy(self.timestamp)")])
+V('C03', 'c03v-destroyed-is-not-none', [(MSG, "        destroyed = ''\n        if self.destroyed_obj:", "        destroyed = ''\n        if self.destroyed_obj is not None:")])
